@@ -49,6 +49,13 @@ def cargo_env(extra=None):
         env.update(extra)
     return env
 
+def copy_lock(crate_dir):
+    """Pin the dependency versions to the repository's lock file (a `git worktree` snapshot has none: Cargo.lock is untracked there)."""
+    for cand in (os.path.join(REPO, 'Cargo.lock'), '/repo/Cargo.lock'):
+        if os.path.exists(cand):
+            shutil.copy(cand, os.path.join(crate_dir, 'Cargo.lock'))
+            return
+
 def write_crate(crate_dir, pkg, programs, features=(), extra_lib='', dep_features=('derive',), crate_attrs=''):
     src = os.path.join(crate_dir, 'src')
     if os.path.isdir(src):
@@ -59,7 +66,7 @@ def write_crate(crate_dir, pkg, programs, features=(), extra_lib='', dep_feature
         f.write('[package]\nname = "%s"\nversion = "0.0.0"\nedition = "2021"\n\n'
                 '[dependencies]\nstrum = { path = "%s/strum", features = [%s] }\n\n'
                 '[lints.rust]\nunexpected_cfgs = { level = "allow" }\n\n[workspace]\n' % (pkg, REPO, feats))
-    shutil.copy(os.path.join(REPO, 'Cargo.lock'), os.path.join(crate_dir, 'Cargo.lock'))
+    copy_lock(crate_dir)
     lib = [crate_attrs, '#![allow(dead_code, unused_imports, unused_variables, non_camel_case_types, deprecated, unreachable_patterns, non_snake_case)]']
     for p in programs:
         mod = p.name_mod()
